@@ -178,3 +178,91 @@ Proof.
   destruct (H ds (cd_init d0)) as [H1 H2]. rewrite H1, H2. cbn [cd_init cd_level cd_h].
   repeat split. lia.
 Qed.
+
+(* ---- the stacked recursion the code runs = the two single recursions ---- *)
+Theorem stacked_rows a_st a b mu_h mu_2h :
+  (forall t zf zc, smat_f (a_st t zf zc) = a t zf /\ smat_c (a_st t zf zc) = a t zc) ->
+  forall csteps zf zc, ceuler_st a_st b mu_h mu_2h csteps zf zc = ceuler a b mu_h mu_2h csteps zf zc.
+Proof.
+  intro Hst. induction csteps as [|c r IH]; intros zf zc; [reflexivity|].
+  cbn [ceuler_st ceuler]. destruct (Hst (c_t c) zf zc) as [Hf Hc]. rewrite Hf, Hc.
+  change (terms_of (a (c_t c) zf) (b (c_t c) zf) mu_h (fine_step c)) with (terms a b mu_h (fine_step c) zf).
+  change (terms_of (a (c_t c) zc) (b (c_t c) zc) mu_2h (coarse_step c)) with (terms a b mu_2h (coarse_step c) zc).
+  change (next_of (terms a b mu_h (fine_step c) zf) zf) with (next a b mu_h (fine_step c) zf).
+  change (next_of (terms a b mu_2h (coarse_step c) zc) zc) with (next a b mu_2h (coarse_step c) zc).
+  rewrite IH. reflexivity.
+Qed.
+
+Lemma stacked_constant A t zf zc : smat_f (a_st_constant A t zf zc) = a_constant A t zf /\ smat_c (a_st_constant A t zf zc) = a_constant A t zc.
+Proof. split; reflexivity. Qed.
+Lemma stacked_diag t zf zc : smat_f (a_st_diag t zf zc) = a_diag t zf /\ smat_c (a_st_diag t zf zc) = a_diag t zc.
+Proof. split; reflexivity. Qed.
+
+(* ---- the sums of increments of steps_of are the end value minus the start value of the driver path ---- *)
+Fixpoint vsum_k (k : nat) (Ls : list (list Q)) : Q := match Ls with [] => 0 | v :: r => nth k v 0 + vsum_k k r end.
+
+Lemma zip_sums : forall dts ts Ls Ws k, (length dts <= length ts)%nat -> length Ls = length dts -> length Ws = length dts ->
+  sum_dt (zip_steps ts dts Ls Ws) == qsum dts
+  /\ nth k (sum_dL (zip_steps ts dts Ls Ws)) 0 == vsum_k k Ls
+  /\ nth k (sum_dW (zip_steps ts dts Ls Ws)) 0 == vsum_k k Ws.
+Proof.
+  induction dts as [|dt dts IH]; intros ts Ls Ws k Ht HL HW.
+  - destruct Ls; [|discriminate]. destruct Ws; [|discriminate]. destruct ts; simpl; repeat split; try reflexivity; destruct k; reflexivity.
+  - destruct ts as [|t ts]; [simpl in Ht; lia|]. destruct Ls as [|L Ls]; [discriminate|]. destruct Ws as [|W Ws]; [discriminate|].
+    cbn [zip_steps sum_dt sum_dL sum_dW s_dt s_dL s_dW qsum vsum_k].
+    destruct (IH ts Ls Ws k) as [H1 [H2 H3]]; [simpl in Ht; lia | simpl in HL; lia | simpl in HW; lia |].
+    rewrite !qn_vadd, H1, H2, H3. repeat split; reflexivity.
+Qed.
+
+Lemma nth_columns n rows : forall i k, (i < n)%nat -> nth k (nth i (columns n rows) []) 0 = nth i (nth k rows []) 0.
+Proof.
+  intros i k Hi. unfold columns. rewrite (nth_map_seq _ []) by assumption. cbn [plus].
+  assert (E : (0 : Q) = nth i [] 0) by (destruct i; reflexivity).
+  rewrite E at 1. apply (map_nth (fun row : list Q => nth i row 0)).
+Qed.
+
+Lemma vsum_k_columns k rows n : (n = length (nth k rows []))%nat -> vsum_k k (columns n rows) == qsum (nth k rows []).
+Proof.
+  intro Hn. unfold columns.
+  assert (G : forall m s, (s + m = length (nth k rows []))%nat ->
+            vsum_k k (map (fun j => map (fun row => nth j row 0) rows) (seq s m)) == qsum (skipn s (nth k rows []))).
+  { induction m as [|m IH]; intros s Hs.
+    - simpl. rewrite skipn_all2 by lia. reflexivity.
+    - cbn [seq map vsum_k]. rewrite IH by lia.
+      assert (E : (0 : Q) = nth s [] 0) by (destruct s; reflexivity).
+      rewrite E at 1. rewrite (map_nth (fun row : list Q => nth s row 0)).
+      assert (Hsk : forall (l : list Q) s, (s < length l)%nat -> qsum (skipn s l) == nth s l 0 + qsum (skipn (S s) l)).
+      { induction l as [|x l IHl]; intros s0 H0; simpl in H0; [lia|]. destruct s0; [simpl; reflexivity|].
+        cbn [skipn nth]. apply IHl. lia. }
+      rewrite (Hsk _ s) by lia. reflexivity. }
+  rewrite (G n 0%nat) by lia. reflexivity.
+Qed.
+
+(* C16_constant_a, second half: Y_T of the theorem IS the driver's end value: with times of length n+1 and driver rows of that length,
+   sum dt = t_n - t_0 and component k of sum dL (sum dW) = L_n,k - L_0,k (W_n,k - W_0,k) *)
+Theorem driver_totals times J W k :
+  times <> [] -> (k < length J)%nat -> (k < length W)%nat ->
+  length (nth k J []) = length times -> length (nth k W []) = length times ->
+  let steps := steps_of times J W in
+  sum_dt steps == last times 0 - hd 0 times
+  /\ nth k (sum_dL steps) 0 == last (nth k J []) 0 - hd 0 (nth k J [])
+  /\ nth k (sum_dW steps) 0 == last (nth k W []) 0 - hd 0 (nth k W []).
+Proof.
+  intros Hne HkJ HkW HJ HW steps. unfold steps, steps_of.
+  assert (Hq : forall l, length (qdiff l) = pred (length l)).
+  { induction l as [|x r IH]; [reflexivity|]. destruct r as [|y r']; [reflexivity|].
+    change (S (length (qdiff (y :: r'))) = length (y :: r')). rewrite IH. reflexivity. }
+  set (n := pred (length times)).
+  assert (Hcol : forall rows, length (columns n rows) = n) by (intro; unfold columns; rewrite map_length, seq_length; reflexivity).
+  destruct (zip_sums (qdiff times) times (columns n (map qdiff J)) (columns n (map qdiff W)) k) as [H1 [H2 H3]];
+    [rewrite Hq; lia | rewrite Hcol, Hq; reflexivity | rewrite Hcol, Hq; reflexivity |].
+  assert (Hrow : forall R, (k < length R)%nat -> length (nth k R []) = length times ->
+            vsum_k k (columns n (map qdiff R)) == last (nth k R []) 0 - hd 0 (nth k R [])).
+  { intros R HkR HR. rewrite vsum_k_columns.
+    - assert (E : nth k (map qdiff R) [] = qdiff (nth k R [])) by (change [] with (qdiff []) at 1; apply map_nth).
+      rewrite E. apply qdiff_telescope. intro Hc. rewrite Hc in HR. destruct times; [congruence | discriminate].
+    - assert (E : nth k (map qdiff R) [] = qdiff (nth k R [])) by (change [] with (qdiff []) at 1; apply map_nth).
+      rewrite E, Hq, HR. reflexivity. }
+  rewrite H1, H2, H3, (Hrow J HkJ HJ), (Hrow W HkW HW). repeat split; try reflexivity.
+  apply qdiff_telescope. assumption.
+Qed.
